@@ -55,6 +55,15 @@ class SymVal:
     def sym_isinstance(self, it, cls): raise Outside(f'isinstance({type(self).__name__}, {cls})')
     def sym_type(self, it): raise Outside(f'type({type(self).__name__})')
 
+class _Untouched: pass
+
+class Poison(SymVal):
+    "the value of a local at a loop head that the loop body assigns and the loop contract does not describe"
+    def __init__(self, name, loop): self._n, self._l = name, loop
+    def _no(self, *a, **k): raise Outside(f'local {self._n!r} is assigned in {self._l} and not described by its loop contract')
+    sym_getattr = sym_setattr = sym_call = sym_binop = sym_unop = sym_compare = sym_truth = sym_iter = sym_len = sym_getitem = sym_setitem = sym_delitem = sym_contains = sym_isinstance = sym_type = _no
+    def sym_is(self, it, o): self._no()
+
 class GenList(list):
     "values yielded by an (eagerly run) generator function / generator expression"
 
@@ -81,6 +90,8 @@ class SuperProxy:
 def is_sym(v): return isinstance(v, (z3.ExprRef, SymVal))
 
 # ------------------------------------------------------------------ path
+
+MAX_DECISIONS = 1500
 
 class Path:
     def __init__(self, prefix, timeout_ms=2000):
@@ -114,6 +125,8 @@ class Path:
         if z3.is_true(cond): return True
         if z3.is_false(cond): return False
         i = len(self.taken)
+        if i >= MAX_DECISIONS:
+            raise Outside(f'more than {MAX_DECISIONS} decisions on one path (a loop over symbolic data without a loop contract?)')
         if i < len(self.prefix):
             d = self.prefix[i]
             self.taken.append(d)
@@ -176,6 +189,7 @@ class LoopSpec:
     variant: object = None         # callable(it, frame) -> z3 Int
     elem: object = None            # for `for` over a symbolic sequence: callable(it, frame, k) -> element value
     on_entry: object = None        # callable(it, frame): snapshot entry values into frame.locals (ghost)
+    canon: object = None           # '<qualname>.loop<k>' of the loop the contract was written for (obligation names stay stable when the loop moves)
 
 # ------------------------------------------------------------------ interpreter
 
@@ -404,7 +418,7 @@ class Interp:
     def st_For(self, st, fr):
         ordinal = fr.loop_ordinal; fr.loop_ordinal += 1
         itv = self.ev(st.iter, fr)
-        spec = self.world.loop_spec(fr.fi, ordinal)
+        spec = self.world.loop_spec(fr.fi, ordinal, st)
         if spec is not None and spec.invariant is not None:
             return self.loop_with_spec(st, fr, spec, ordinal, itv)
         items = self.iterate(itv)
@@ -421,7 +435,7 @@ class Interp:
 
     def st_While(self, st, fr):
         ordinal = fr.loop_ordinal; fr.loop_ordinal += 1
-        spec = self.world.loop_spec(fr.fi, ordinal)
+        spec = self.world.loop_spec(fr.fi, ordinal, st)
         if spec is None or spec.invariant is None:
             # concrete loops only
             n = 0
@@ -439,7 +453,7 @@ class Interp:
         return self.loop_with_spec(st, fr, spec, ordinal, None)
 
     def loop_with_spec(self, st, fr, spec, ordinal, itv):
-        base = f'{fr.fi.qualname}.loop{ordinal}'
+        base = spec.canon or f'{fr.fi.qualname}.loop{ordinal}'
         def check_inv(tag):
             inv = spec.invariant(self, fr)
             items = inv if isinstance(inv, list) else [('inv', inv)]
@@ -456,11 +470,24 @@ class Interp:
             fr.locals['_iter%d' % ordinal] = itv
         if spec.on_entry: spec.on_entry(self, fr)
         check_inv('init')
+        before = dict(fr.locals)
+        assigned = _assigned_names(st.body) | (_assigned_names([ast.Assign(targets=[st.target], value=None)]) if is_for else set())
+        marks = {}
+        for name in assigned:
+            if name in before and not name.startswith('_'): marks[name] = fr.locals[name] = _Untouched()
         spec.havoc(self, fr)
         if is_for:
             kk = self.fresh_int('k'); fr.locals[k] = kk
             self.assume(kk >= 0)
         assume_inv()
+        # locals the body assigns but the contract's havoc did not speak about: a cursor (`x = E` right before the loop and as the last
+        # statement of the body, nowhere else) equals E at every loop head and is re-read in the havocked state; any other one is unknown
+        # at the loop head -- using it is outside the contract (undecided), never silently the pre-loop value
+        for name in sorted(marks):
+            if fr.locals.get(name) is not marks[name]: continue          # the contract's havoc gave it a value
+            fr.locals[name] = before[name]
+            e = _cursor_expr(fr.fi.node, st, name)
+            fr.locals[name] = self.ev(e, fr) if e is not None else Poison(name, base)
         if is_for:
             n = self.len(itv)
             cond = fr.locals[k] < n
@@ -884,6 +911,40 @@ def _is_generator(node):
     for n in _walk_no_nested(node):
         if isinstance(n, (ast.Yield, ast.YieldFrom)): return True
     return False
+def _assigned_names(stmts):
+    out = set()
+    def tgt(t):
+        if isinstance(t, ast.Name): out.add(t.id)
+        elif isinstance(t, (ast.Tuple, ast.List)):
+            for e in t.elts: tgt(e)
+        elif isinstance(t, ast.Starred): tgt(t.value)
+    for s_ in stmts:
+        for n in ast.walk(s_):
+            if isinstance(n, (ast.FunctionDef, ast.Lambda, ast.ClassDef)): continue
+            if isinstance(n, ast.Assign):
+                for t in n.targets: tgt(t)
+            elif isinstance(n, (ast.AugAssign, ast.AnnAssign)): tgt(n.target)
+            elif isinstance(n, (ast.For, ast.AsyncFor)): tgt(n.target)
+            elif isinstance(n, ast.NamedExpr): tgt(n.target)
+            elif isinstance(n, ast.withitem) and n.optional_vars is not None: tgt(n.optional_vars)
+            elif isinstance(n, ast.ExceptHandler) and n.name: out.add(n.name)
+    return out
+
+def _cursor_expr(func_node, loop, name):
+    "E if `name = E` is the statement right before `loop` and the last statement of its body, and the body assigns `name` nowhere else"
+    def is_asg(s_):
+        return isinstance(s_, ast.Assign) and len(s_.targets) == 1 and isinstance(s_.targets[0], ast.Name) and s_.targets[0].id == name
+    if not loop.body or not is_asg(loop.body[-1]): return None
+    if name in _assigned_names(loop.body[:-1]): return None
+    for n in ast.walk(func_node):
+        for fld in ('body', 'orelse', 'finalbody'):
+            blk = getattr(n, fld, None)
+            if isinstance(blk, list) and loop in blk:
+                i = blk.index(loop)
+                if i > 0 and is_asg(blk[i - 1]) and ast.dump(blk[i - 1].value) == ast.dump(loop.body[-1].value): return loop.body[-1].value
+                return None
+    return None
+
 def _walk_no_nested(node):
     todo = list(node.body)
     while todo:
